@@ -29,7 +29,7 @@ if [ "$TESTS" = 1 ]; then
   (cd "$D/repo" && cargo test --workspace --no-fail-fast --offline >"$RES/tests.log" 2>&1)
   if grep -q "test result: FAILED\|^error" "$RES/tests.log"; then echo "MUTANT $NAME tests rc=1 existing suite FAILS with this patch"; else echo "MUTANT $NAME tests rc=0 existing suite passes ($(grep -c '^test .* ok$' "$RES/tests.log") ok)"; fi
 fi
-mkdir -p "$D/sim"; cp -r "$VERIF/sim/src" "$VERIF/sim/Cargo.toml" "$VERIF/sim/Cargo.lock" "$VERIF/sim/.cargo" "$D/sim/"
+mkdir -p "$D/sim"; cp -r "$VERIF/sim/src" "$VERIF/sim/build.rs" "$VERIF/sim/Cargo.toml" "$VERIF/sim/Cargo.lock" "$VERIF/sim/.cargo" "$D/sim/"
 sed -i "s|path = \"/repo\"|path = \"$D/repo\"|" "$D/sim/Cargo.toml"
 (cd "$D/sim" && cargo build --release --offline --target-dir "$D/target/sim" >"$RES/sim-build.log" 2>&1) || { echo "MUTANT $NAME build rc=2 simulator does not build against the patched tree"; tail -5 "$RES/sim-build.log"; exit 2; }
 (cd "$D/repo" && cargo build --release --offline --bin cteepbd --target-dir "$D/target/sut" >"$RES/sut-build.log" 2>&1) || { echo "MUTANT $NAME build rc=2 CLI does not build"; exit 2; }
